@@ -5,10 +5,11 @@ import json, os, subprocess
 HERE = os.path.dirname(os.path.abspath(__file__))
 
 TECH = "bounded model checking of the compiled Rust code: Kani 0.68 / CBMC 6.11 (CaDiCaL) over #[kani::proof] harnesses with kani::any() inputs"
+TECH_MIR = TECH + "; plus path-exploring symbolic execution of the rustc MIR of the parser/builders/combinators with z3 (mirsym)"
 
 CLAIMS = {
- "C01": ("Inductive step of expression evaluation decided by the solver for arbitrary children: And/Or/List/Not nodes (order, short-circuit, ',' value, quit cut-off, action flag, finished callbacks), the And-builder (1-3 leaves), the is-an-action table, the implicit -print decision of build_top_level_matcher, -quit in the walk loop and across starting points.",
-         "Given a tree. The token -> tree mapping (build_matcher_tree: '!', -a, -o, ',', parentheses) and the Or/List builders' precedence encoding are NOT covered (no formulation finished within the caps). build_matcher_tree / AndMatcherBuilder are replaced by scripts/recorders in c01_default_print; Printer output itself is outside.",
+ "C01": ("End-to-end (mirsym): tokens -> tree -> evaluation equals the grammar's reference evaluation (precedence, '!', -a/juxtaposition, -o, ',', parentheses, short-circuit, implicit -print, -quit) for all token sequences within the bound. Inductive step (Kani) for arbitrary children: And/Or/List/Not nodes (order, short-circuit, ',' value, quit cut-off, action flag, finished callbacks), the And-builder (1-3 leaves), the is-an-action table, the implicit -print decision of build_top_level_matcher, -quit in the walk loop and across starting points.",
+         "Kani part: given a tree (build_matcher_tree / AndMatcherBuilder are scripts/recorders in c01_default_print). mirsym part: the real build_top_level_matcher, builders and combinators are executed end to end from their MIR on every token sequence of length <= 3 over a 15-word vocabulary (4 tokens: 10 words in quick, 15 in thorough), two symbolic leaf tests, one abstract file, compared with a reference parser/evaluator written from the grammar; std calls are models, Printer/-prune/-empty/-readable are natives. Operand-taking primaries, longer expressions and Printer's bytes are outside.",
          "4 C01"),
  "C02": ("findutils' side of the traversal: process_dir evaluates every yielded entry exactly once and in order, an error step gives a non-zero status and the walk continues (<=2/3 scripted steps, all entry records); the WalkDir configuration requested equals the Config (depth range incl. the empty range, -L/-H, -depth, -xdev, -sorted) for every Config; do_find accumulates the status over <=3 starting points.",
          "walkdir 2.5 itself (which entries exist, link following, loop detection) is trusted: its iterator is scripted / its builder methods are recorders modelling its documented behaviour. WalkEntry::from_walkdir (dangling-link conversion) is not covered.",
@@ -28,8 +29,8 @@ CLAIMS = {
  "C10": ("-delete's decision for every entry kind: exactly one removal call on the entry's own path, rmdir iff the entry itself (lstat) is a directory under every follow mode and link kind, failure => false and exit status 1, success => true, '.' skipped; -delete is an action.",
          "remove_dir/remove_file/stat/lstat are a symbolic world under the kernel's contract. 'Only entries for which EXPR is true' = And short-circuit (C01 step); children-before-parent = walkdir's contents_first (requested: C02/C03 walk_config); '-delete implies -depth' is set in the parser (not covered).",
          "4 C10"),
- "C11": ("No panic and accept/reject per the documented sets for the leaf operand parsers: -printf format leaves (advance_one, peek, advance_by, escape sequences; ASCII and 2-byte UTF-8 at any position), -type/-xtype letters, -size unit suffix, -perm prefix, xargs -d operand.  Kani checks every reachable panic/overflow/slice index in all harnesses of this suite for the code they execute.",
-         "Leaves only: build_matcher_tree's rejection of non-sentences, 'rejected before any file is visited', bracket scanner, regex-crate operand parsers, uucore mode parser are NOT covered (whole-parser harnesses exhausted memory).",
+ "C11": ("Grammar acceptance (mirsym): a token sequence within the bound is accepted iff it is a sentence (dangling operators, '!' without operand, unbalanced/empty parentheses, unknown primary are rejected). No panic and accept/reject per the documented sets for the leaf operand parsers (Kani): -printf format leaves (advance_one, peek, advance_by, escape sequences; ASCII and 2-byte UTF-8 at any position), -type/-xtype letters, -size unit suffix, -perm prefix, xargs -d operand.  Kani checks every reachable panic/overflow/slice index in all harnesses of this suite for the code they execute.",
+         "Kani: leaves only. mirsym: build_matcher_tree accepts exactly the sentences of the grammar for all token sequences of length <= 4 over the vocabulary (operators, parentheses, '!', eight operand-free primaries, one unknown word) and never panics there. Operand-taking primaries (missing/invalid operands), 'rejected before any file is visited' (do_find), bracket scanner, regex-crate operand parsers, uucore mode parser are NOT covered.",
          "4 C11"),
  "C12": ("The glob -> POSIX BRE translation table for single atoms: every ASCII literal is escaped iff special in a BRE; '?' -> '.', '*' -> '.*', lone backslash -> never matches.",
          "Matching itself is oniguruma (C, FFI) and is trusted; bracket expressions, backslash escapes of 2+ byte patterns, subject selection (-name/-path/-lname) are outside. A small part of the property.",
@@ -73,12 +74,12 @@ def main():
             "thorough_cmd": "./check.py %s --tier thorough" % pid,
             "evidence_file": "evidence/%s.json" % pid,
             "replay_cmd_template": "./check.py --replay {path}",
-            "engine": "kani",
+            "engine": "kani+mirsym" if pid in ("C01", "C11") else "kani",
             "level_claimed": {"category": "model_checking",
                               "text": text + " Bounded: holds for all inputs within the bounds printed per query in the evidence file; nothing is called a proof.",
                               "design_ref": "DESIGN.md section " + ref},
             "level_note": note + " Trusted: Kani's MIR->goto translation and std models, CBMC + CaDiCaL, the listed #[kani::stub] cuts, the reference models in /verif/harness.",
-            "technique": TECH,
+            "technique": TECH_MIR if pid in ("C01", "C11") else TECH,
         })
     hooks_commits = subprocess.run(["git", "-C", "/repo", "log", "--format=%h", "--grep=^verif hooks"], capture_output=True, text=True).stdout.split()
     m = {
@@ -92,7 +93,9 @@ def main():
             "add_only": True,
         },
         "engines": [{"name": "kani", "path": "check.py", "serves_properties": sorted(CLAIMS),
-                     "kind_free_text": "Kani 0.68.0 / CBMC 6.11.0 bounded model checker over in-crate #[kani::proof] harnesses (harness/*.rs), driven by check.py"}],
+                     "kind_free_text": "Kani 0.68.0 / CBMC 6.11.0 bounded model checker over in-crate #[kani::proof] harnesses (harness/*.rs), driven by check.py"},
+                    {"name": "mirsym", "path": "mirsym/run.py", "serves_properties": ["C01", "C11"],
+                     "kind_free_text": "own symbolic interpreter for rustc's MIR dump (cargo +nightly rustc -Zunpretty=mir, regenerated from /repo on every run): executes build_top_level_matcher, the builders and the combinators' matches() on symbolic token sequences; z3 decides branch feasibility; std calls are modelled (mirsym/models.py)"}],
         "checks": checks,
         "not_applicable": [{"property_id": k, "reason": v} for k, v in sorted(NOT_APPLICABLE.items())],
         "notes": "Solver-based checking only. Exit 0 = verified (KNOWN-FINDING lines for recorded defects), 1 = VIOLATION, 2 = INCONCLUSIVE (timeout/OOM/vacuity guard). known_findings.json lists recorded and fixed defects; seeded/ holds confirmed breaking changes used to test the checks.",
